@@ -176,7 +176,7 @@ def run(ctx):
     n = 150 if ctx.tier == 'quick' else 2000
     for k in range(n):
         one_case(ctx, k)
-        if ctx.n_new() >= 3:
+        if ctx.n_new(with_input_only=True) >= 3:
             break
 
 
